@@ -19,6 +19,8 @@ class VLoop(asyncio.AbstractEventLoop):
         self.scale = scale            # internal time unit = 1/scale second, so that instants between whole seconds exist
         self.errors = []
         self.steps = 0
+        self.iteration = 0
+        self.on_iteration = None      # hook(loop, k) called at the start of the k-th loop iteration (k = 1, 2, ...)
         self._debug = False
 
     def time(self): return self._time
@@ -68,6 +70,9 @@ class VLoop(asyncio.AbstractEventLoop):
                     self._timers.pop(0)
                     self._time = t._when
                     self._ready.append(t)
+                self.iteration += 1
+                if self.on_iteration is not None:
+                    self.on_iteration(self, self.iteration)
                 for _ in range(len(self._ready)):
                     h = self._ready.popleft()
                     if not h._cancelled:
@@ -126,11 +131,24 @@ class RealVirtualLoop(asyncio.SelectorEventLoop):
     def _make_self_pipe(self): pass
     def _close_self_pipe(self): pass
 
+    iteration = 0
+    on_iteration = None
+
+    def _run_once(self):
+        # one iteration of the real scheduler; the hook sees the same iteration numbering as VLoop when every iteration runs
+        # at least one handle (an iteration that only waits for a timer is not counted)
+        if self._ready or (self._scheduled and self._scheduled[0]._when <= self.time() + self._clock_resolution):
+            self.iteration += 1
+            if self.on_iteration is not None:
+                self.on_iteration(self, self.iteration)
+        super()._run_once()
+
     def run_until_quiescent(self, horizon):
         """run_forever until nothing is scheduled or virtual time passes `horizon`"""
         def stopper():
             self.stop()
-        self.call_at(horizon, stopper)
+        if horizon is not None:
+            self.call_at(horizon, stopper)
         try:
             self.run_forever()
             return "horizon"
